@@ -83,6 +83,29 @@ Qed.
 Lemma lookup_install_Inv s n v b now : Inv s -> Inv (fst (lookup_install s n v b now)).
 Proof. intros I. unfold lookup_install. cbn [fst]. apply secret_locked_Inv, Inv_upd_some, I. Qed.
 
+Lemma lookup_finish_Inv (s : store) n v b now : Inv s -> Inv (fst (lookup_finish s n v b now)).
+Proof.
+  intros I. unfold lookup_finish. destruct (entry s n); cbn [fst].
+  - apply secret_locked_Inv, I.
+  - apply lookup_install_Inv, I.
+Qed.
+
+(* on a name that is not yet known (the only case the sequential callers reach) it is the install *)
+Lemma lookup_finish_unknown (s : store) n v b now : known s n = false -> lookup_finish s n v b now = lookup_install s n v b now.
+Proof. unfold lookup_finish, entry, known. destruct (find n (m s)); [discriminate|reflexivity]. Qed.
+
+(* on a name that has a value it changes neither the map nor the watchers and writes nothing *)
+Lemma lookup_finish_known (s : store) n v b now e : entry s n = Some e ->
+  m (fst (lookup_finish s n v b now)) = m s /\ ws (fst (lookup_finish s n v b now)) = ws s
+  /\ snd (lookup_finish s n v b now) = [] /\ In n (hs (fst (lookup_finish s n v b now))).
+Proof.
+  intros E. unfold lookup_finish. rewrite E. cbn [fst snd]. unfold secret_locked, known.
+  unfold entry in E. destruct (find n (m s)) as [oe|] eqn:F; [|discriminate].
+  destruct (has_handle s n) eqn:H; cbn [fst m ws hs with_hs]; repeat split; auto.
+  - apply mem_In. exact H.
+  - left; reflexivity.
+Qed.
+
 Lemma add_watcher_Inv s n : Inv s -> Inv (fst (add_watcher s n)).
 Proof. intros I. unfold add_watcher. cbn [fst]. apply Inv_with_ws, I. Qed.
 
